@@ -441,7 +441,16 @@ def rule_nonetruth(ctx):
     yield from _c.rule_nonetruth(ctx, "C08.NONETRUTH", ("beat.py", "onset.py", "transcription.py", "multipitch.py", "alignment.py", "pattern.py", "chord.py", "segment.py", "hierarchy.py", "tempo.py", "util.py"))
 
 
+
+
+def _labelcolumn():
+    from . import common as _c
+
+    return _c.shared("c20", "rule_converters", "C08.LABELCOLUMN", keep=lambda o: o.construct == "io.load_delimited:split")
+
+
 RULES = [
+    ("C08.LABELCOLUMN", 1, _labelcolumn()),
     ("C08.NONETRUTH", 5, rule_nonetruth),
     ("C08.GENREUSE", 1, rule_genreuse),
     ("C08.SHIFTSHARED", 10, rule_shiftshared),
